@@ -47,7 +47,33 @@ def helpers():
         def c10_get_fwd(ref: pt.ScratchVar):
             return c10_get(ref)
 
-        _HELPERS.update(set=c10_set, get=c10_get, set_fwd=c10_set_fwd, get_fwd=c10_get_fwd)
+        # mixed signatures: by-value / ABI parameters in front of and between the by-reference ones
+        @pt.Subroutine(pt.TealType.none)
+        def c10_set_ev(pad: pt.Expr, ref: pt.ScratchVar, val: pt.Expr):
+            return ref.store(val)
+
+        @pt.Subroutine(pt.TealType.anytype)
+        def c10_get_ev(pad: pt.Expr, ref: pt.ScratchVar):
+            return ref.load()
+
+        @pt.Subroutine(pt.TealType.none)
+        def c10_set4(pad: pt.Expr, other: pt.ScratchVar, val: pt.Expr, ref: pt.ScratchVar):
+            return pt.Seq(other.store(pad), ref.store(val))
+
+        @pt.Subroutine(pt.TealType.anytype)
+        def c10_get4(pad: pt.Expr, other: pt.ScratchVar, pad2: pt.Expr, ref: pt.ScratchVar):
+            return pt.Seq(pt.Assert(other.load() == pad), ref.load())
+
+        @pt.Subroutine(pt.TealType.none)
+        def c10_set_abi(x: pt.abi.Uint64, ref: pt.ScratchVar, val: pt.Expr):
+            return ref.store(val)
+
+        @pt.Subroutine(pt.TealType.anytype)
+        def c10_get_abi(x: pt.abi.Uint64, ref: pt.ScratchVar):
+            return ref.load()
+
+        _HELPERS.update(set=c10_set, get=c10_get, set_fwd=c10_set_fwd, get_fwd=c10_get_fwd, set_ev=c10_set_ev, get_ev=c10_get_ev,
+                        set4=c10_set4, get4=c10_get4, set_abi=c10_set_abi, get_abi=c10_get_abi)
     return _HELPERS
 
 
@@ -57,7 +83,11 @@ class Var:
       mode "idx"   through ScratchStore/ScratchLoad(index_expression=var.index())
       mode "dyn"   through its own DynamicScratchVar (set_index, store, load)
       mode "byref" as a by-reference argument of a setter / getter subroutine
-      mode "fwd"   as a by-reference argument forwarded through a second subroutine."""
+      mode "fwd"   as a by-reference argument forwarded through a second subroutine
+      mode "ev"    by reference AFTER a by-value parameter: set(pad: Expr, ref: ScratchVar, val: Expr); pad is a small
+                   valid slot number (0..7), so a wrong frame cell silently designates another variable
+      mode "mix4"  (Expr, ScratchVar, Expr, ScratchVar): a second by-reference variable (automatic) in between
+      mode "abi"   by reference after an abi.Uint64 parameter."""
 
     def __init__(self, spec, index):
         self.spec = tuple(spec)
@@ -77,6 +107,11 @@ class Var:
             self.mode = self.spec[3]
             if self.mode == "dyn":
                 self.d = pt.DynamicScratchVar(tt)
+            if self.mode == "mix4":
+                self.other = pt.ScratchVar(pt.TealType.uint64)
+            if self.mode == "abi":
+                self.a = pt.abi.Uint64()
+            self.pad = pt.Int(index % 8)
         elif kind == "abi":
             self.ty = U
             self.obj = pt.abi.Uint64()
@@ -99,6 +134,12 @@ class Var:
             return helpers()["set"](self.obj, e)
         if self.mode == "fwd":
             return helpers()["set_fwd"](self.obj, e)
+        if self.mode == "ev":
+            return helpers()["set_ev"](self.pad, self.obj, e)
+        if self.mode == "mix4":
+            return helpers()["set4"](self.pad, self.other, e, self.obj)
+        if self.mode == "abi":
+            return pt.Seq(self.a.set(self.pad), helpers()["set_abi"](self.a, self.obj, e))
         return self.obj.set(e)
 
     def load(self):
@@ -113,6 +154,12 @@ class Var:
             return helpers()["get"](self.obj)
         if self.mode == "fwd":
             return helpers()["get_fwd"](self.obj)
+        if self.mode == "ev":
+            return helpers()["get_ev"](self.pad, self.obj)
+        if self.mode == "mix4":
+            return helpers()["get4"](self.pad, self.other, pt.Int((self.index + 3) % 8), self.obj)
+        if self.mode == "abi":
+            return pt.Seq(self.a.set(self.pad), helpers()["get_abi"](self.a, self.obj))
         return self.obj.get()
 
     def check(self, gen=0):
